@@ -37,7 +37,8 @@ Section Main.
   (** the whole property *)
   Definition full : Prop :=
     (* no string content can end a literal early or swallow what follows it *)
-    (forall s rest, starts_with QS rest = false -> lex_string (render_string s ++ rest) = Some (s, rest))
+    (forall s p rest, In p (str_pieces s) -> starts_with QS rest = false ->
+                      lex_string (render_string p ++ rest) = Some (p, rest))
     /\ (forall ps, wf (map (fun p => match p with Str _ => Str [] | x => x end) ps) = true ->
                    lex_stmt (render ps) = Some (toks ps))
     (* values: for every environment that behaves as assumed, every column of listed values *)
@@ -59,6 +60,8 @@ Section Main.
   Definition partial : Prop :=
     (forall s rest, nul_free s = true -> starts_with QS rest = false ->
                     lex_string (render_string s ++ rest) = Some (s, rest))
+    /\ (forall s p rest, In p (str_pieces s) -> starts_with QS rest = false ->
+                         lex_string (render_string p ++ rest) = Some (p, rest))
     /\ (forall s rest, s <> [] -> nul_free s = true -> starts_with QI rest = false ->
                        lex_ident (render_ident s ++ rest) = Some (s, rest))
     /\ (forall ps, wf ps = true -> lex_stmt (render ps) = Some (toks ps))
@@ -84,7 +87,10 @@ Section Main.
     apply andb_true_iff in H. destruct H as [H Hm]. apply andb_true_iff in H. destruct H as [H Hv].
     apply andb_true_iff in H. destruct H as [H Hf]. apply andb_true_iff in H. destruct H as [Hi Hl].
     unfold partial, sample. rewrite Hfl, Hsn. clear Hfl Hsn.
-    split; [exact string_roundtrip|]. split; [exact ident_roundtrip|]. split; [exact stmt_roundtrip|].
+    split; [exact string_roundtrip|].
+    split; [intros s p rest Hin Hr; apply string_roundtrip; [|exact Hr];
+            pose proof (str_pieces_nul_free s) as Hp; rewrite forallb_forall in Hp; exact (Hp p Hin)|].
+    split; [exact ident_roundtrip|]. split; [exact stmt_roundtrip|].
     split; [exact structure_independent|]. split; [exact (infer_type_sound ich Hi)|].
     split; [|exact (schema_reports_declared tbl Hm)].
     intros eleaf cleaf pleaf round32 ENV. cbv zeta.
